@@ -69,12 +69,14 @@ fn sink_plan(profile: u8) -> SinkPlan {
 fn gen_cfg(rng: &mut Rng, family: &str) -> Cfg {
     let (n_pubs, n_subs) = match family {
         // registration bursts: dozens of mostly idle peers queue up between two polls
-        "burst" => (rng.range(1, 45) as usize, rng.below(45) as usize),
+        "burst" => (rng.range(1, 70) as usize, rng.below(70) as usize),
+        // one or two publishers with thousands of items available at once (a single poll relays a long burst)
+        "firehose" => (rng.range(1, 2) as usize, rng.range(1, 3) as usize),
         "c09" => (rng.below(4) as usize, rng.below(4) as usize),
         "c08" => (rng.range(1, 3) as usize, rng.range(1, 4) as usize),
         _ => (rng.range(1, 3) as usize, rng.below(5) as usize),
     };
-    let items = (0..n_pubs).map(|_| if family == "burst" { (rng.below(4) == 0) as u32 } else { rng.below(5) as u32 }).collect();
+    let items = (0..n_pubs).map(|_| if family == "burst" { (rng.below(4) == 0) as u32 } else if family == "firehose" { rng.range(900, 2600) as u32 } else { rng.below(5) as u32 }).collect();
     let steps = if family == "burst" { rng.range(40, 260) as usize } else { rng.range(10, 70) as usize };
     let spurious = matches!(family, "c01" | "c08" | "c11") && rng.pct(30);
     let close_at = match family {
@@ -259,7 +261,9 @@ impl Sim {
             Kind::Subscriber => Socket::Sink(Box::pin(MockSink { w: self.sh.clone(), peer })),
             _ => unreachable!(),
         };
-        let r = self.tx.try_send(sock);
+        // like the server, every registration goes through its own clone of the topic's sender (a clone owns a
+        // guaranteed slot, so more registrations than the channel's nominal capacity can queue up)
+        let r = self.tx.clone().try_send(sock);
         let mut w = lock(&self.sh);
         let label = w.peers[peer].label.clone();
         match r {
@@ -762,8 +766,12 @@ pub fn run(seed: u64, family: &str, keep_dump: bool) -> RunResult {
             }
             A::Reg(p) => sim.register(p),
             A::Produce(p) => {
-                *remaining.get_mut(&p).unwrap() -= 1;
-                sim.produce(p, "msg");
+                // firehose: hundreds of items become available between two polls
+                let k = if family == "firehose" { (sim.rng.range(300, 1500) as u32).min(remaining[&p]) } else { 1 };
+                for _ in 0..k {
+                    *remaining.get_mut(&p).unwrap() -= 1;
+                    sim.produce(p, "msg");
+                }
             }
             A::Hostile(p) => {
                 *remaining.get_mut(&p).unwrap() -= 1;
